@@ -61,15 +61,29 @@ type harnessClient struct {
 	dc   *webrtc.DataChannel
 	open chan struct{}
 	msgs chan []byte
+	connected chan struct{} // closed once the PeerConnection is connected
 }
 
-func newHarnessClient() (*harnessClient, string, error) {
+// negotiated: the client's only data channel is negotiated out of band, so it completes ICE and
+// DTLS but never announces a data channel to the proxy.
+func newHarnessClient(negotiated bool) (*harnessClient, string, error) {
 	pc, err := webrtc.NewPeerConnection(webrtc.Configuration{})
 	if err != nil {
 		return nil, "", err
 	}
-	hc := &harnessClient{pc: pc, open: make(chan struct{}), msgs: make(chan []byte, 64)}
-	dc, err := pc.CreateDataChannel("verif", nil)
+	hc := &harnessClient{pc: pc, open: make(chan struct{}), msgs: make(chan []byte, 64), connected: make(chan struct{})}
+	var once sync.Once
+	pc.OnConnectionStateChange(func(st webrtc.PeerConnectionState) {
+		if st == webrtc.PeerConnectionStateConnected {
+			once.Do(func() { close(hc.connected) })
+		}
+	})
+	var init *webrtc.DataChannelInit
+	if negotiated {
+		yes, id := true, uint16(5)
+		init = &webrtc.DataChannelInit{Negotiated: &yes, ID: &id}
+	}
+	dc, err := pc.CreateDataChannel("verif", init)
 	if err != nil {
 		return nil, "", err
 	}
@@ -175,7 +189,7 @@ func (r *rig) roundTrip(req *http.Request) (*http.Response, error) {
 			if o.Kind == "relay-url" {
 				offer = r.realOffer
 			} else {
-				hc, s, err := newHarnessClient()
+				hc, s, err := newHarnessClient(o.Kind == "client-connects-no-datachannel")
 				if err != nil {
 					return nil, err
 				}
@@ -263,7 +277,7 @@ func setupRig() *rig {
 			c.Close()
 		}
 	}()
-	hc, offer, err := newHarnessClient()
+	hc, offer, err := newHarnessClient(false)
 	if err != nil {
 		panic(err)
 	}
@@ -370,7 +384,7 @@ func runSessions(t *testing.T, c sessCase) error {
 		done := make(chan struct{})
 		go func() { sf.runSession(fmt.Sprintf("sid-%d", i)); close(done) }()
 		budget := 15 * time.Second
-		if o.Kind == "client-never-connects" {
+		if o.Kind == "client-never-connects" || o.Kind == "client-connects-no-datachannel" {
 			budget = dataChannelTimeout + 15*time.Second
 		}
 		select {
@@ -443,6 +457,17 @@ func runSessions(t *testing.T, c sessCase) error {
 				}
 			}
 			hc.pc.Close()
+		case "client-connects-no-datachannel":
+			// the proxy gave up waiting for a data channel: slot and PeerConnection must be gone although
+			// the client had completed ICE and DTLS
+			if hc != nil {
+				select {
+				case <-hc.connected:
+					uSess.Add("sessions in which the client was connected but never opened a data channel", 1)
+				default:
+				}
+				defer hc.pc.Close()
+			}
 		default:
 			if hc != nil {
 				defer hc.pc.Close()
@@ -491,6 +516,8 @@ func genRelayURL(t *rapid.T, r *rig) string {
 
 var uSess = vstat.New("C16", "c16_sessions")
 
+var slowQuick int // 20-second outcomes generated so far in this process
+
 func init() { vstat.Register(uSess, runSessions) }
 
 func TestVerifC16Sessions(t *testing.T) {
@@ -530,9 +557,14 @@ func TestVerifC16Sessions(t *testing.T) {
 			case 3:
 				o = outcome{Kind: "connect-relay-unreachable", RelayURL: "ws://127.0.0.1:1/"}
 			case 4:
-				if vstat.Thorough() && slow == 0 {
-					o = outcome{Kind: "client-never-connects", RelayURL: relayURL}
+				if (vstat.Thorough() || slowQuick == 0) && slow == 0 {
+					// 20 s each: once per sequence in the thorough tier, once per process in the quick tier
+					o = outcome{Kind: rapid.SampledFrom([]string{"client-never-connects", "client-connects-no-datachannel", "client-connects-no-datachannel"}).Draw(rt, "slowkind"), RelayURL: relayURL}
+					if !vstat.Thorough() {
+						o.Kind = "client-connects-no-datachannel"
+					}
 					slow++
+					slowQuick++
 				} else {
 					o = outcome{Kind: "answer-client-gone", RelayURL: relayURL}
 				}
